@@ -9,7 +9,7 @@ git -C /repo worktree remove --force $WT 2>/dev/null; rm -rf $WT
 git -C /repo worktree add -q --detach $WT HEAD || exit 9
 cd $WT
 git apply $SRC/demo.diff || { echo "demo.diff does not apply" | tee -a $OUT; git -C /repo worktree remove --force $WT; exit 8; }
-CMD="$(grep -v '^\s*#' $SRC/demo_cmd.txt | grep -m1 cargo)"
+CMD="$(grep -v "^\s*#" $SRC/demo_cmd.txt | grep -m1 cargo | sed -E "s/^.*cd [^ ]+ *(&&|;) *//")"
 echo "demo cmd: $CMD" >> $OUT
 ( eval "$CMD" ) > $SRC/confirm_demo_clean.txt 2>&1; RC_CLEAN=$?
 git apply $SRC/patch.diff || { echo "patch.diff does not apply" | tee -a $OUT; git -C /repo worktree remove --force $WT; exit 7; }
